@@ -29,11 +29,16 @@ structure Env where
   islands : Bool     -- islands_supported (= !mjDISABLED(mjDSBL_ISLAND) && nisland > 0 && !mj_flexCG(m))
   solver : Solver    -- m->opt.solver (an invalid value raises mjERROR: no result)
   noslip : Bool      -- m->opt.noslip_iterations > 0
+  warm : Bool        -- !mjDISABLED(mjDSBL_WARMSTART)
+  zeroBetter : Bool  -- PGS warm start: PGS_warmstart > 0 (the zero force has the lower dual cost)
+  oracle : String → Bool   -- value of every other condition (none of them guards a write to a tracked array)
 
 /-- guard literals: the enclosing control structure of a statement -/
 inductive G
   | ifNoRows | ifBadSolver | ifIslands | elseIslands | caseSolver (l : List Solver) | ifNoslip
   | forIslands | ifDual
+  | ifWarm | elseWarm | ifPGS | elsePGS | ifZeroBetter
+  | ifOpaque (c : String) | elseOpaque (c : String) | forOpaque (h : String)
 
 def G.text : G → String
   | .ifNoRows => "if(!nefc)"
@@ -44,6 +49,14 @@ def G.text : G → String
   | .ifNoslip => "if(m->opt.noslip_iterations>0)"
   | .forIslands => "for(int island=0;island<nisland;island++)"
   | .ifDual => "if(m->opt.solver==mjSOL_PGS||m->opt.noslip_iterations>0)"
+  | .ifWarm => "if(!mjDISABLED(mjDSBL_WARMSTART))"
+  | .elseWarm => "else(!mjDISABLED(mjDSBL_WARMSTART))"
+  | .ifPGS => "if(m->opt.solver==mjSOL_PGS)"
+  | .elsePGS => "else(m->opt.solver==mjSOL_PGS)"
+  | .ifZeroBetter => "if(PGS_warmstart>0)"
+  | .ifOpaque c => "if(" ++ c ++ ")"
+  | .elseOpaque c => "else(" ++ c ++ ")"
+  | .forOpaque h => "for(" ++ h ++ ")"
 
 def G.holds (e : Env) : G → Bool
   | .ifNoRows => e.noRows
@@ -54,6 +67,14 @@ def G.holds (e : Env) : G → Bool
   | .ifNoslip => e.noslip
   | .forIslands => true            -- the whole loop is one abstract transition (`Leaves.noslip`)
   | .ifDual => e.solver == .pgs || e.noslip
+  | .ifWarm => e.warm
+  | .elseWarm => !e.warm
+  | .ifPGS => e.solver == .pgs
+  | .elsePGS => !(e.solver == .pgs)
+  | .ifZeroBetter => e.zeroBetter
+  | .ifOpaque c => e.oracle c
+  | .elseOpaque c => !e.oracle c
+  | .forOpaque _ => true           -- loop bodies under `forOpaque` hold `Prim.other` statements only
 
 /-- arrays of mjData named in the modelled functions -/
 inductive Arr
@@ -97,6 +118,9 @@ inductive Prim
   | dualFinish                          -- mj_dualFinish(m, d)
   | dualFinishStatic                    -- dualFinish(m, d)
   | updateImpl                          -- mj_constraintUpdate_impl(..., d->efc_state, d->efc_force, cost, flg_coneHessian)
+  | constraintUpdateW                   -- mj_constraintUpdate(m, d, jar, &cost_warmstart, 0)      (jar of qacc_warmstart)
+  | constraintUpdateS                   -- mj_constraintUpdate(m, d, d->efc_b, &cost_smooth, 0)    (jar of qacc_smooth)
+  | other (text : String)               -- a statement that writes no tracked array (checked textually by checks/c11.py)
 
 def Prim.text : Prim → String
   | .tmStart => "TM_START"
@@ -126,6 +150,9 @@ def Prim.text : Prim → String
   | .dualFinish => "mj_dualFinish(m,d)"
   | .dualFinishStatic => "dualFinish(m,d)"
   | .updateImpl => "mj_constraintUpdate_impl(d->ne,d->nf,d->nefc,d->efc_D,d->efc_R,d->efc_frictionloss,jar,d->efc_type,d->efc_id,d->contact,d->efc_state,d->efc_force,cost,flg_coneHessian)"
+  | .constraintUpdateW => "mj_constraintUpdate(m,d,jar,&cost_warmstart,0)"
+  | .constraintUpdateS => "mj_constraintUpdate(m,d,d->efc_b,&cost_smooth,0)"
+  | .other t => t
 
 abbrev Prog := List (List G × Prim)
 
@@ -178,6 +205,42 @@ def mjConstraintUpdate : Prog := [
   ([], .updateImpl),
   ([], .mulJacTVec .qfrc_constraint .efc_force)]
 
+/-- static `warmstart` of engine_forward.c -/
+def warmstartBody : Prog := [
+  ([], .other "int nv=m->nv,nefc=d->nefc"),
+  ([.ifWarm], .other "mj_markStack(d)"),
+  ([.ifWarm], .other "mjtNum*jar=mjSTACKALLOC(d,nefc,mjtNum)"),
+  ([.ifWarm], .other "mju_copy(d->qacc,d->qacc_warmstart,nv)"),
+  ([.ifWarm], .other "mj_mulJacVec(m,d,jar,d->qacc_warmstart)"),
+  ([.ifWarm], .other "mju_subFrom(jar,d->efc_aref,nefc)"),
+  ([.ifWarm], .other "mjtNum cost_warmstart"),
+  ([.ifWarm], .constraintUpdateW),
+  ([.ifWarm, .ifPGS], .other "mjtNum PGS_warmstart=mju_dot(d->efc_force,d->efc_b,nefc)"),
+  ([.ifWarm, .ifPGS], .other "mjtNum*ARf=mjSTACKALLOC(d,nefc,mjtNum)"),
+  ([.ifWarm, .ifPGS, .ifOpaque "mj_isSparse(m)"],
+    .other "mju_mulMatVecSparse(ARf,d->efc_AR,d->efc_force,nefc,d->efc_AR_rownnz,d->efc_AR_rowadr,d->efc_AR_colind,NULL)"),
+  ([.ifWarm, .ifPGS, .elseOpaque "mj_isSparse(m)"], .other "mju_mulMatVec(ARf,d->efc_AR,d->efc_force,nefc,nefc)"),
+  ([.ifWarm, .ifPGS], .other "PGS_warmstart+=0.5*mju_dot(d->efc_force,ARf,nefc)"),
+  ([.ifWarm, .ifPGS, .ifZeroBetter], .zero .efc_force .nefc),
+  ([.ifWarm, .ifPGS, .ifZeroBetter], .zero .qfrc_constraint .nv),
+  ([.ifWarm, .elsePGS], .other "mjtNum*Ma=mjSTACKALLOC(d,nv,mjtNum)"),
+  ([.ifWarm, .elsePGS], .other "mj_mulM(m,d,Ma,d->qacc_warmstart)"),
+  ([.ifWarm, .elsePGS, .forOpaque "int i=0;i<nv;i++"],
+    .other "cost_warmstart+=0.5*(Ma[i]-d->qfrc_smooth[i])*(d->qacc_warmstart[i]-d->qacc_smooth[i])"),
+  ([.ifWarm, .elsePGS], .other "mjtNum cost_smooth"),
+  ([.ifWarm, .elsePGS], .constraintUpdateS),
+  ([.ifWarm, .elsePGS, .ifOpaque "cost_warmstart>cost_smooth"], .other "mju_copy(d->qacc,d->qacc_smooth,nv)"),
+  ([.ifWarm, .ifOpaque "d->nisland>0", .forOpaque "int i=d->nidof;i<nv;i++"], .other "int dof=d->map_idof2dof[i]"),
+  ([.ifWarm, .ifOpaque "d->nisland>0", .forOpaque "int i=d->nidof;i<nv;i++"], .other "d->qacc[dof]=d->qacc_smooth[dof]"),
+  ([.ifWarm], .other "mj_freeStack(d)"),
+  ([.elseWarm], .other "mju_copy(d->qacc,d->qacc_smooth,nv)"),
+  ([.elseWarm], .zero .efc_force .nefc)]
+
+/-- the texts of the `Prim.other` statements of a program (checks/c11.py verifies that none of them
+    names a tracked array in a written position or hands `d` to a function outside its allow-list) -/
+def others (p : Prog) : List String :=
+  p.filterMap fun gp => match gp.2 with | .other t => some t | _ => none
+
 def line (gp : List G × Prim) : String :=
   "|".intercalate (gp.1.map G.text) ++ " :: " ++ gp.2.text
 
@@ -205,7 +268,9 @@ structure Leaves (φ α : Type) where
   nv : Nat
   map : List Nat                 -- map_idof2dof[0 .. nidof)
   jtf : φ → List α               -- J' f for the constraint Jacobian of this call (mj_mulJacTVec)
-  warm : φ                       -- efc_force after `warmstart` (from qacc_warmstart, or zero)
+  updW : φ                       -- efc_force written by mj_constraintUpdate for jar(qacc_warmstart)
+  updS : φ                       -- efc_force written by mj_constraintUpdate for jar(qacc_smooth) = efc_b
+  zeroF : φ                      -- efc_force after mju_zero(d->efc_force, nefc)
   mono : Solver → φ → φ          -- mj_solPGS / mj_solCG / mj_solNewton
   isl : Solver → φ → φ           -- all islands' solvers (mju_dispatch of solveIslandTask)
   noslip : φ → φ                 -- mj_solNoSlip / the loop of mj_solNoSlip_island
@@ -220,6 +285,18 @@ structure St (φ α : Type) where
 
 variable {φ α : Type}
 
+/-- `efc_force` after `warmstart(m, d)` -/
+def warmF (L : Leaves φ α) (e : Env) : φ :=
+  if e.warm then
+    if e.solver == .pgs then (if e.zeroBetter then L.zeroF else L.updW) else L.updS
+  else L.zeroF
+
+/-- `qfrc_constraint` after `warmstart(m, d)` when it held `q` before: the cold start does not write it -/
+def warmQ (L : Leaves φ α) (e : Env) (q : List α) : List α :=
+  if e.warm then
+    if e.solver == .pgs then (if e.zeroBetter then List.replicate L.nv L.z else L.jtf L.updW) else L.jtf L.updS
+  else q
+
 /-- Effect of one statement on the tracked arrays; `none` = no result (error raised, index out of
     range, or a write to a tracked array that the model does not know). -/
 def Prim.eff (L : Leaves φ α) (e : Env) (p : Prim) (s : St φ α) : Option (St φ α) :=
@@ -227,6 +304,10 @@ def Prim.eff (L : Leaves φ α) (e : Env) (p : Prim) (s : St φ α) : Option (St
   | .tmStart | .tmEnd | .declSizes | .declIslands | .setNidof | .ret => some s
   | .errSolver => none
   | .zero .qfrc_constraint .nv => some { s with qfrc := List.replicate L.nv L.z }
+  | .zero .efc_force .nefc => some { s with force := L.zeroF }
+  | .other _ => some s
+  | .constraintUpdateW => some { s with force := L.updW, qfrc := L.jtf L.updW }
+  | .constraintUpdateS => some { s with force := L.updS, qfrc := L.jtf L.updS }
   | .zero a _ | .zeroInt a _ | .copy a _ _ | .subFrom a _ _ | .addTo a _ _ | .mulJacVec a _ | .solveM a _ =>
       if a.tracked then none else some s
   | .gather .ifrc_constraint .qfrc_constraint .idof2dof .nidof =>
@@ -239,8 +320,8 @@ def Prim.eff (L : Leaves φ α) (e : Env) (p : Prim) (s : St φ α) : Option (St
   | .scatter a _ _ _ => if a.tracked then none else some s
   | .mulJacTVec .qfrc_constraint .efc_force => some { s with qfrc := L.jtf s.force }
   | .mulJacTVec _ _ => none
-  -- warm start: efc_force from qacc_warmstart (mj_constraintUpdate: qfrc_constraint = J' f) or both zeroed
-  | .warmstart => some { s with force := L.warm, qfrc := L.jtf L.warm }
+  -- summary of `warmstartBody` (theorem `warmstart_refines`)
+  | .warmstart => some { s with force := warmF L e, qfrc := warmQ L e s.qfrc }
   | .dispatchIslands =>
       match e.solver with
       | .pgs => some { s with force := L.isl .pgs s.force }         -- PGS islands work on efc_force itself
